@@ -9,7 +9,7 @@ import z3
 from .. import cfront, core, kern, pe, sx
 from ..core import HELD, INCONCLUSIVE, VIOLATED, Q, result
 from ..kern import Arr, Run
-from ..pe import SV, Explorer, SymNd
+from ..pe import SB, SV, Explorer, SymNd
 from ..sx import add, and_, div, eq, ge, gt, implies, ite, le, lt, mul, ne, not_, or_, sub
 
 PROP = "C10"
@@ -20,7 +20,8 @@ META = {
     "assumptions": ["exact reals: the float32 rounding of the results ('single-precision accuracy' of the statement) is outside",
                     "log is an uninterpreted function (equality of the sums of p*log(...) terms, not their numeric value)",
                     "numpy.corrcoef / numpy.linalg are trusted; only what pyunicorn hands to them is checked"],
-    "outside": ["knn estimators (growing-cube search loops with data-dependent trip counts)", "information_transfer", "gaussian MI estimator "
+    "outside": ["numerics of the knn estimator (growing-cube search loops with data-dependent trip counts), of the QR projection and of the "
+                "digamma / log transforms: information_transfer is checked with recording stubs in their place", "gaussian MI estimator "
                 "(probit transform through scipy.special)", "partial correlation (matrix inverse + square roots: NRA beyond reach at N>=3)",
                 "standardisation with square roots inside CouplingAnalysis.cross_correlation (the kernels get symbolic standardised arrays)"],
 }
@@ -446,6 +447,196 @@ def ob_tsonis_glue(name, T, N):
     return result(name, HELD, functions=funcs, bound=bound, twin="sat", detail=f"{len(paths)} paths")
 
 
+# ------------------------------------------------------------------------------------------------ information transfer (Engine P)
+def term_vars(t):
+    if isinstance(t, sx.NF):
+        return term_vars(t.val) | term_vars(t.nan)
+    seen, out, stack = set(), set(), [t]
+    while stack:
+        x = stack.pop()
+        if not isinstance(x, z3.ExprRef) or x.get_id() in seen:
+            continue
+        seen.add(x.get_id())
+        if z3.is_const(x) and x.decl().kind() == z3.Z3_OP_UNINTERPRETED:
+            out.add(str(x))
+        stack.extend(x.children())
+    return out
+
+
+def ob_information_transfer(name, estimator, cond_mode, lag_mode, N, T, tau_max, past):
+    """CouplingAnalysis.information_transfer: the estimator of every (i, j, tau) receives X = x_i(t-tau), Y = x_j(t), Z = the documented
+    conditioning set on the common time window; the value / lag bookkeeping of both lag modes is right.  The estimators are recording
+    stubs returning one fresh value per call (knn: get_nearest_neighbors + digamma; gauss: scipy.linalg.qr + _par_corr_to_cmi), so the
+    claim is about which samples are conditioned on which, not about the estimators' numerics."""
+    from pyunicorn.funcnet import coupling_analysis as camod
+    funcs = ["src/pyunicorn/funcnet/coupling_analysis.py CouplingAnalysis.information_transfer"]
+    bound = f"{estimator}, cond_mode={cond_mode}, lag_mode={lag_mode}, N={N}, T={T}, tau_max={tau_max}, past={past}, symbolic data"
+    D = [[z3.Real(f"d_{t}_{i}") for i in range(N)] for t in range(T)]
+    max_lag = tau_max + past
+    Tw = T - max_lag
+    log = {"nn": [], "qr": [], "pc": [], "std": []}
+
+    def expected_rows(i, j, tau):
+        X, Y = [(i, -tau)], [(j, 0)]
+        Z = [(j, -p) for p in range(1, past + 1)]
+        if cond_mode == "mit":
+            Z += [(i, -tau - p) for p in range(1, past + 1)]
+        return [[D[max_lag + lag + k][var] for k in range(Tw)] for var, lag in X + Y + Z]
+
+    def harness(ex):
+        out = []
+        for k in log:
+            log[k].clear()
+
+        def nn(array=None, xyz=None, k=None, standardize=True):
+            arr = np.asarray(array, dtype=object)
+            v = ex.fresh("real", "cmi")
+            ex.assume(SB(v >= 0)) if False else None
+            log["nn"].append({"rows": [[pe._num(x) for x in r] for r in arr], "v": v})
+            n_ = arr.shape[1]
+            return (pe.NP.zeros(n_), pe.NP.zeros(n_), SymNd(np.array([SV(v)] * n_, dtype=object)))
+
+        class Special:
+            @staticmethod
+            def digamma(x):
+                return 0 if not isinstance(x, np.ndarray) else x
+
+        class Linalg:
+            @staticmethod
+            def qr(a, mode="full", **kw):
+                arr = np.asarray(a, dtype=object)
+                kq = len(log["qr"])
+                Qs = [[z3.Real(f"q{kq}_{r}_{c}") for c in range(arr.shape[1])] for r in range(arr.shape[0])]
+                log["qr"].append({"input": [[pe._num(x) for x in r] for r in arr], "syms": {str(x) for r in Qs for x in r}})
+                return (SymNd(np.array([[SV(x) for x in r] for r in Qs], dtype=object)), None)
+
+        def pc(par_corr):
+            v = ex.fresh("real", "cmi")
+            log["pc"].append({"arg": pe._num(par_corr), "v": v, "nqr": len(log["qr"])})
+            return SV(v)
+        def std_stub(self_, axis=None, **kw):
+            # the standard deviation of a row is "some positive number" (constant series are rejected by the method): a fresh
+            # symbol per row instead of a square root keeps the queries linear; which rows were standardised is recorded
+            arr = np.asarray(self_, dtype=object)
+            assert axis == 1 and arr.ndim == 2
+            syms = []
+            for r in range(arr.shape[0]):
+                sv = ex.fresh("real", "std")
+                ex.assume(SB(sv > 0))
+                syms.append(sv)
+            log["std"].append(syms)
+            return SymNd(np.array([SV(x) for x in syms], dtype=object))
+        saved_std = SymNd.std
+        if estimator == "gauss":
+            SymNd.std = std_stub
+
+        class NPx:
+            """numpy proxy whose sqrt is 'some positive number' (the value of the partial correlation is not part of this claim)"""
+
+            def __getattr__(self, nm):
+                return getattr(pe.NP, nm)
+
+            def sqrt(self, a):
+                if isinstance(a, np.ndarray):
+                    return pe.NP.sqrt(a)
+                sv = ex.fresh("real", "sqrt")
+                ex.assume(SB(sv > 0))
+                return SV(sv)
+        with pe.patched([camod], {"pyunicorn.funcnet.coupling_analysis": {"numpy": (NPx() if estimator == "gauss" else pe.NP), "special": Special,
+                                                                          "linalg": Linalg}}):
+            obj = object.__new__(camod.CouplingAnalysis)
+            obj.data = SymNd(np.array([[SV(D[t][i]) for i in range(N)] for t in range(T)], dtype=object))
+            obj.N, obj.silence_level = N, 3
+            obj.get_nearest_neighbors = nn
+            obj._par_corr_to_cmi = pc
+            try:
+                res = obj.information_transfer(tau_max=tau_max, estimator=estimator, knn=1, past=past, cond_mode=cond_mode, lag_mode=lag_mode)
+            except (IndexError, TypeError, KeyError, AttributeError) as e:
+                return [(f"raises {type(e).__name__}", True)]
+            except ValueError:
+                return []            # documented rejection (NaNs / constant series) on this path
+            finally:
+                SymNd.std = saved_std
+        triples = [(i, j, tau) for i in range(N) for j in range(N) for tau in range(tau_max + 1)]
+        calls = log["nn"] if estimator == "knn" else log["pc"]
+        if len(calls) != len(triples):
+            return [("the estimator is not evaluated once per (i, j, tau)", True)]
+        vals = {}
+        for c, (i, j, tau) in zip(calls, triples):
+            vals[(i, j, tau)] = c["v"]
+            if estimator == "knn":
+                exp = expected_rows(i, j, tau)
+                if len(c["rows"]) != len(exp):
+                    out.append(("number of series handed to the estimator", True))
+                    continue
+                out.append(("samples handed to the estimator are not X=x_i(t-tau), Y=x_j(t), Z=documented conditions on the common window",
+                            or_(*[ne(a, b) for ra, rb in zip(c["rows"], exp) for a, b in zip(ra, rb)])))
+            else:
+                # provenance: the orthonormal basis entering this partial correlation is the one computed for THIS (i, j, tau)
+                nconf = past * (2 if cond_mode == "mit" else 1)
+                used = term_vars(c["arg"]) & set().union(*[q["syms"] for q in log["qr"]]) if log["qr"] else set()
+                mine = log["qr"][c["nqr"] - 1] if c["nqr"] else None
+                idx = triples.index((i, j, tau))
+                if mine is None or c["nqr"] != idx + 1 or not used or not used <= mine["syms"]:
+                    out.append(("partial correlation uses a confound basis that was not computed for this (i, j, tau)", True))
+                    continue
+                # that basis was computed from the standardised conditioning series of this triple: entry * std == deviation from the mean
+                exp = expected_rows(i, j, tau)[2:]
+                inp = mine["input"]                                  # (Tw, nconf): confounds transposed
+                if len(inp) != Tw or len(inp[0]) != nconf:
+                    out.append(("shape of the conditioning matrix handed to qr", True))
+                    continue
+                bad = []
+                stds = log["std"][idx] if idx < len(log["std"]) else None
+                if stds is None or len(stds) != 2 + nconf:
+                    out.append(("standardisation is not applied once per (i, j, tau) to X, Y and the conditions", True))
+                    continue
+                for r in range(nconf):
+                    mean = div(sx.total(exp[r]), Tw)
+                    for k in range(Tw):
+                        bad.append(ne(mul(inp[k][r], stds[2 + r]), sub(exp[r][k], mean)))
+                out.append(("conditioning series handed to qr are not the standardised documented conditions", or_(*bad)))
+        # bookkeeping
+        if lag_mode == "all":
+            R = np.asarray(res, dtype=object)
+            for (i, j, tau), v in vals.items():
+                exp = 0 if (i == j and tau == 0) else v
+                out.append(("lag_mode='all' entry is not the estimate of its (i, j, tau)", ne(pe._num(R[i, j, tau]), exp)))
+        else:
+            S, L = (np.asarray(x, dtype=object) for x in res)
+            for i in range(N):
+                for j in range(N):
+                    if i == j:
+                        out.append(("lag_mode='max' diagonal not zero", ne(pe._num(S[i, j]), 0)))
+                        continue
+                    vs = [vals[(i, j, tau)] for tau in range(tau_max + 1)]
+                    s_, l_ = pe._num(S[i, j]), pe._num(L[i, j])
+                    best = or_(*[and_(eq(l_, tau), eq(s_, vs[tau])) for tau in range(tau_max + 1)])
+                    allneg = and_(*[le(v, 0) for v in vs])
+                    out.append(("lag_mode='max' value/lag is not the maximum of the lag function",
+                                not_(or_(and_(allneg, eq(s_, 0)), and_(best, *[ge(s_, v) for v in vs])))))
+        return [(l, b) for l, b in out if b is not False]
+    ex = Explorer([], max_paths=4096)
+    try:
+        paths = ex.run(harness)
+    except pe.Unsupported as e:
+        return result(name, INCONCLUSIVE, reason=f"unsupported: {e}", functions=funcs, bound=bound)
+    nq = 0
+    for p in paths:
+        for lab, b in p.result:
+            nq += 1
+            v, m = Q.check(p.cond() + ([b] if b is not True else []), 60, tag=f"{name}|{lab}")
+            if v == "sat":
+                return result(name, VIOLATED, functions=funcs, bound=bound, twin="sat", signature=f"C10|information_transfer|{estimator},{cond_mode}|{lab}",
+                              witness={"kind": "it", "estimator": estimator, "cond_mode": cond_mode, "lag_mode": lag_mode, "N": N, "T": T,
+                                       "tau_max": tau_max, "past": past, "label": lab})
+            if v != "unsat":
+                return result(name, INCONCLUSIVE, reason=f"solver unknown at {lab}", functions=funcs, bound=bound)
+    if ex.truncated:
+        return result(name, INCONCLUSIVE, reason="path cap", functions=funcs, bound=bound)
+    return result(name, HELD, functions=funcs, bound=bound, twin="sat", detail=f"{len(paths)} paths, {nq} queries")
+
+
 def prepare(tier):
     return {"validated": 0, "validation": [], "source": {"funcnet/_ext/numerics.pyx": kern.module(FN).sha,
                                                          "climate/_ext/src_numerics.c": cfront.cmodule("climate").sha,
@@ -469,6 +660,13 @@ def obligations(tier):
     for T, N in ([(3, 2), (4, 1)] + ([(4, 2), (5, 1)] if th else [])):
         obs.append((ob_ranks, dict(name=f"C10|Spearman ranks|T={T},N={N}", T=T, N=N), 1800))
     obs.append((ob_tsonis_glue, dict(name="C10|Tsonis glue|T=3,N=2", T=3, N=2), 600))
+    for est, cm, lm in [("knn", "ity", "max"), ("knn", "mit", "max"), ("knn", "ity", "all"), ("knn", "mit", "all"), ("gauss", "ity", "max"),
+                        ("gauss", "mit", "max"), ("gauss", "mit", "all")]:
+        obs.append((ob_information_transfer, dict(name=f"C10|information_transfer|{est},{cm},{lm}", estimator=est, cond_mode=cm, lag_mode=lm,
+                                                  N=2, T=5, tau_max=1, past=1), 1800))
+    if th:
+        obs.append((ob_information_transfer, dict(name="C10|information_transfer|gauss,mit,max|tau_max=2,past=2", estimator="gauss", cond_mode="mit",
+                                                  lag_mode="max", N=2, T=8, tau_max=2, past=2), 3000))
     return obs
 
 
@@ -583,4 +781,41 @@ def replay(w):
             ref = np.array([[spearmanr(an[:, i], an[:, j])[0] if i != j else got[i, i] for j in range(an.shape[1])] for i in range(an.shape[1])])
         bad = not np.allclose(got, ref, rtol=1e-5, atol=1e-6, equal_nan=True)
         return bad, f"Spearman rho of series {an.T.tolist()}: {got.tolist()} vs rank correlation with average ranks {ref.tolist()}"
+    if k == "it":
+        from pyunicorn.funcnet import CouplingAnalysis
+        rng = np.random.default_rng(11)
+        T, N = 80, w["N"]
+        x = np.zeros((T, N))
+        for t in range(1, T):
+            x[t] = 0.6 * x[t - 1] + 0.4 * np.roll(x[t - 1], 1) + rng.normal(size=N)
+        ca = CouplingAnalysis(x, silence_level=3)
+        try:
+            res = ca.information_transfer(tau_max=w["tau_max"], estimator="gauss", past=w["past"], cond_mode=w["cond_mode"], lag_mode=w["lag_mode"])
+        except Exception as e:  # noqa
+            return True, f"information_transfer(estimator='gauss', cond_mode={w['cond_mode']!r}, lag_mode={w['lag_mode']!r}) raises {type(e).__name__}: {e}"
+        # reference: partial correlation of X and Y given Z from least-squares residuals, per (i, j, tau)
+        ml = w["tau_max"] + w["past"]
+        ref = np.zeros((N, N, w["tau_max"] + 1))
+        for i in range(N):
+            for j in range(N):
+                for tau in range(w["tau_max"] + 1):
+                    Z = [(j, -p) for p in range(1, w["past"] + 1)]
+                    if w["cond_mode"] == "mit":
+                        Z += [(i, -tau - p) for p in range(1, w["past"] + 1)]
+                    rows = [x[ml + lag: T + lag, var] for var, lag in [(i, -tau), (j, 0)] + Z]
+                    rows = [(r - r.mean()) / r.std() for r in rows]
+                    Zm = np.array(rows[2:]).T
+                    rx = rows[0] - Zm.dot(np.linalg.lstsq(Zm, rows[0], rcond=None)[0])
+                    ry = rows[1] - Zm.dot(np.linalg.lstsq(Zm, rows[1], rcond=None)[0])
+                    pc = rx.dot(ry) / np.sqrt(rx.dot(rx) * ry.dot(ry))
+                    ref[i, j, tau] = -0.5 * np.log(1 - pc ** 2)
+        if w["lag_mode"] == "all":
+            ref[range(N), range(N), 0] = 0
+            bad = not np.allclose(res, ref, rtol=1e-4, atol=1e-5)
+            return bad, f"lag functions differ from the reference partial-correlation statistic by up to {np.abs(res - ref).max():.3g}"
+        S, L = res
+        exp = ref.max(axis=2)
+        np.fill_diagonal(exp, 0)
+        bad = not np.allclose(S, exp, rtol=1e-4, atol=1e-5)
+        return bad, f"maxima differ from the reference partial-correlation statistic by up to {np.abs(S - exp).max():.3g}"
     return False, "no replay for this witness kind"
